@@ -11,6 +11,9 @@ for sid in sorted(os.listdir(os.path.join(V, "seeded"))):
     if not os.path.exists(mp):
         continue
     meta = json.load(open(mp))
+    if meta.get("status") == "obsolete":
+        rows.append((sid, meta["breaks_property"], "n/a", meta["needs_to_manifest"], "OBSOLETE on the repaired tree: " + meta["obsolete_reason"]))
+        continue
     t = seed_targets.T.get(sid)
     log = f"/var/tmp/seed_eval/{sid}.log"
     det, how = None, ""
@@ -27,6 +30,9 @@ for sid in sorted(os.listdir(os.path.join(V, "seeded"))):
             m = re.search(r"-> exit (\d)", txt)
             det = False
             how = f"NOT detected: check exit {m.group(1) if m else '?'}; " + "; ".join(re.findall(r"^inconclusive: (.*)$", txt, re.M)[:2])[:200]
+            notes = re.findall(r"^note: while checking \w+, harness (\S+) also failed a (\S+)-class check", txt, re.M)
+            if notes:
+                how += f" (the query {notes[0][0]} fails, but on an assertion tagged {notes[0][1]} only)"
     else:
         how = "not evaluated"
     meta["detected_by"] = how if det else None
@@ -36,11 +42,14 @@ for sid in sorted(os.listdir(os.path.join(V, "seeded"))):
 with open(os.path.join(V, "seeded", "RESULTS.md"), "w") as f:
     f.write("# Seeded changes: which check catches which\n\n"
             "Each change was written by an independent sub-agent from the property text alone, compiles, passes the 35 existing tests, and comes with a "
-            "demonstration test that fails with it. Evaluation: the change is applied to a private clone of /repo and the property's own quick check is run "
-            "(`lib/eval_seed_targeted.sh`: restricted to the queries listed in `lib/seed_targets.py`, all of which are part of that check's quick tier).\n\n"
+            "demonstration test that fails with it (re-confirmed on the current /repo HEAD with `lib/validate_seed.sh`; changes that the later `fix:` commits "
+            "made harmless are marked OBSOLETE). Evaluation: the change is applied to a private clone of /repo and the property's own quick check is run "
+            "(`lib/eval_all_seeds.sh` -> `lib/eval_seed.sh`: restricted to the queries listed in `lib/seed_targets.py`, all of which are part of that check's quick tier; "
+            "'detected' = the check exits 1 with a VIOLATION line whose counterexample reproduced natively).\n\n"
             "| seed | property | detected | needs | result |\n|---|---|---|---|---|\n")
     for r in rows:
         f.write("| " + " | ".join(x.replace("|", "/") for x in r) + " |\n")
     n = sum(1 for r in rows if r[2] == "yes")
-    f.write(f"\nDetected: {n} of {len(rows)}.\n")
+    v = sum(1 for r in rows if r[2] != "n/a")
+    f.write(f"\nDetected: {n} of {v} valid changes ({len(rows) - v} obsolete).\n")
 print(f"{sum(1 for r in rows if r[2]=='yes')}/{len(rows)} detected")
